@@ -141,6 +141,20 @@ def job_polynomial(job):
                 fail({'what': 'tosympy() raised', 'expr': src, 'error': repr(e)[:100]})
         if len(out['samples']) < 4 and rng.random() < 0.03:
             out['samples'].append({'expr': src, 'numer_terms': len(got[0].c), 'denom_terms': len(got[1].c)})
+    # conversion to sympy with coefficients that are not small fractions (float coefficients arise from division by numbers:
+    # x / 5040, chained divisions): the converted expression evaluates to the same number
+    for c in (1 / 5040., 1 / 1001., 1 / 40320., 0.123456789, 1e-5, 2.5e-7, 1 / 576., 7 / 1152., 1234.56789, -3 / 4099.):
+        for c2 in (1, 1 / 1013.):
+            out['evaluations'] += 1
+            try:
+                rp = RationalPolynomial([[c, 'a'], [c * 3, 'a', 'b']], [[c2, 'b']])
+                have = float(sympy.sympify(rp.tosympy()).subs({sympy.Symbol('a'): 3, sympy.Symbol('b'): 5}))
+                want = (c * 3 + c * 3 * 3 * 5) / (c2 * 5)
+                if abs(have - want) > 1e-9 * abs(want):
+                    fail({'what': 'tosympy() of a polynomial with float coefficients denotes a different function', 'coefficient': c, 'denominator_coefficient': c2,
+                          'got': have, 'expected': want})
+            except Exception as e:
+                fail({'what': 'tosympy() raised', 'coefficient': c, 'error': repr(e)[:100]})
     # compare(): a total order on monomials consistent with equality of variable lists
     monos = [[rng.choice([1, -2, 3, 0.5])] + sorted(rng.choices(names, k=rng.randint(0, 3))) for _ in range(40)]
     for a in monos:
